@@ -219,6 +219,7 @@ func inCutset(c byte, cutset string) bool {
 //@ at call prevMarshal#1 assert untouched: prevDepth == currDepth && prevLength == currLength
 //@ at call xe.Flags.Set#0 assert-before reset-is-barred: callArg0 == jsonflags.WithinArshalCall|1
 //@ at call xe.Flags.Set#1 assert-before reset-allowed-again: callArg0 == jsonflags.WithinArshalCall|0
+//@ at call xe.Flags.Set#1 assert-before lowered-only-by-the-outermost-call: !old(export.Encoder(enc).Flags.Get(jsonflags.WithinArshalCall))
 
 //@ extern funcvalue:prevUnmarshal(dec *jsontext.Decoder, va addressableValue, uo *jsonopts.Struct) (result error)
 //@ trusted ASSUMED: the next unmarshaler in the chain (reflection code, not under contract) reads exactly one value when it returns nil
@@ -239,6 +240,7 @@ func inCutset(c byte, cutset string) bool {
 //@ at call prevUnmarshal#1 assert untouched: prevDepth == currDepth && prevLength == currLength
 //@ at call xd.Flags.Set#0 assert-before reset-is-barred: callArg0 == jsonflags.WithinArshalCall|1
 //@ at call xd.Flags.Set#1 assert-before reset-allowed-again: callArg0 == jsonflags.WithinArshalCall|0
+//@ at call xd.Flags.Set#1 assert-before lowered-only-by-the-outermost-call: !old(export.Decoder(dec).Flags.Get(jsonflags.WithinArshalCall))
 
 // MarshalToFunc / UnmarshalFromFunc wrappers: the same one-value policing
 // around a caller-supplied function; ErrUnsupported is forwarded (to the lookup
@@ -251,6 +253,7 @@ func inCutset(c byte, cutset string) bool {
 //@ modifies everything
 //@ at call xe.Flags.Set#0 assert-before reset-is-barred: callArg0 == jsonflags.WithinArshalCall|1
 //@ at call xe.Flags.Set#1 assert-before reset-allowed-again: callArg0 == jsonflags.WithinArshalCall|0
+//@ at call xe.Flags.Set#1 assert-before lowered-only-by-the-outermost-call: !old(export.Encoder(enc).Flags.Get(jsonflags.WithinArshalCall))
 //@ at return#0 assert forwarded-untouched: prevDepth == currDepth && prevLength == currLength
 //@ ensures one-value: result == nil ==> export.Encoder(enc).Tokens.Depth() == old(export.Encoder(enc).Tokens.Depth()) && export.Encoder(enc).Tokens.Last.Length() == old(export.Encoder(enc).Tokens.Last.Length())+1
 
@@ -261,6 +264,7 @@ func inCutset(c byte, cutset string) bool {
 //@ modifies everything
 //@ at call xd.Flags.Set#0 assert-before reset-is-barred: callArg0 == jsonflags.WithinArshalCall|1
 //@ at call xd.Flags.Set#1 assert-before reset-allowed-again: callArg0 == jsonflags.WithinArshalCall|0
+//@ at call xd.Flags.Set#1 assert-before lowered-only-by-the-outermost-call: !old(export.Decoder(dec).Flags.Get(jsonflags.WithinArshalCall))
 //@ at return#1 assert forwarded-untouched: prevDepth == currDepth && prevLength == currLength
 //@ ensures one-value: result == nil ==> export.Decoder(dec).Tokens.Depth() == old(export.Decoder(dec).Tokens.Depth()) && export.Decoder(dec).Tokens.Last.Length() == old(export.Decoder(dec).Tokens.Last.Length())+1
 
